@@ -284,3 +284,11 @@ def run(ctx):
 
 
 SWEEP = ["test_future.cpp"]
+
+
+# name anchors (validated by tools/rename_sweep.py; a vanished name is exit 2, see core.check_anchor_names)
+ANCHORS = {
+    'pointer': ['^babylon::FutureContext(<|$)'],
+    'run_callback': ['^babylon::internal::future(<|$)'],
+    'wake_all': ['^babylon::Futex(<|$)'],
+}
